@@ -64,6 +64,8 @@ type State struct {
 	done   bool
 	dead   bool
 	epoch  int
+	qfacts  []Term // well-typedness facts about terms that mention a bound variable (consumed by the quantifier)
+	lframes []loopFrame
 	trace  []TraceEv
 	wt     map[string]bool // references whose well-typedness fact is already on the path
 	spec   int // >0: evaluating specification code (no obligations, calls merged)
@@ -112,6 +114,8 @@ func (s *State) clone() *State {
 			n.wt[k] = true
 		}
 	}
+	n.lframes = s.lframes
+	n.qfacts = append([]Term(nil), s.qfacts...)
 	n.trace = append([]TraceEv(nil), s.trace...)
 	n.pc = append([]Term(nil), s.pc...)
 	n.pcB = append([]bool(nil), s.pcB...)
@@ -288,7 +292,7 @@ func (e *Engine) site(in ssa.Instruction) string {
 
 var symRe = regexp.MustCompile(`[A-Za-z_$][A-Za-z0-9_$.!]*`)
 
-const prelude = "(set-logic ALL)\n(declare-sort Str 0)\n(define-sort Ref () Int)\n" + strPrelude
+const prelude = "(set-logic ALL)\n(declare-sort Str 0)\n(declare-sort F64 0)\n(declare-const f64.zero F64)\n(define-sort Ref () Int)\n" + strPrelude
 
 // ---------- heap ----------
 
@@ -302,8 +306,9 @@ func (e *Engine) heapArr(s *State, name, sort string) Term {
 	if t, ok := s.heap[name]; ok {
 		return t
 	}
-	// initial (entry) version: symbolic
-	nm := fmt.Sprintf("%s!e%d", name, s.epoch)
+	// initial (entry) version: symbolic. An array first touched after loops were cut is the entry version
+	// pushed through the frames of those loops (it was never written before them).
+	nm := fmt.Sprintf("%s!e0", name)
 	s.defs = append(s.defs, fmt.Sprintf("(declare-const %s %s)", nm, sort))
 	t := Term{S: nm, Sort: sort, C: nil}
 	s.heap[name] = t
@@ -312,6 +317,17 @@ func (e *Engine) heapArr(s *State, name, sort string) Term {
 		s.hlog = map[string]*HLog{}
 	}
 	s.hlog[name] = &HLog{Base: t}
+	if s.entryHeap != nil {
+		if _, ok := s.entryHeap[name]; !ok {
+			s.entryHeap[name] = t
+			s.entryLog[name] = &HLog{Base: t}
+		}
+	}
+	e.mapValWT(s, name, t, Term{S: "alloc!0", Sort: "(Array Int Bool)"})
+	for _, lf := range s.lframes {
+		e.havocHeapArr(s, name, lf)
+	}
+	t = s.heap[name]
 	return t
 }
 
@@ -391,11 +407,26 @@ func (e *Engine) newRef(s *State) Term {
 	return r
 }
 
+// mapValWT attaches to a (symbolic) version of a map-value component holding references the fact that every
+// stored reference is nil or allocated. Specifications quantify over all keys of a map, so this one
+// well-typedness fact has to be quantified too; it travels with the array's declaration.
+func (e *Engine) mapValWT(s *State, name string, arr Term, alloc Term) {
+	if !(strings.HasPrefix(name, "MP_") && (strings.HasSuffix(name, "$v_ptr") || strings.HasSuffix(name, "$v_ref") || strings.HasSuffix(name, "$v_dyn"))) {
+		return
+	}
+	sort := e.heapSorts[name]
+	ks := sort[len("(Array Ref (Array ") : len(sort)-len(" Ref))")]
+	e.axiom(s, arr, Term{S: fmt.Sprintf("(forall ((m!w Ref) (k!w %s)) (! (or (<= (select (select %s m!w) k!w) 0) (select %s (select (select %s m!w) k!w))) :pattern ((select (select %s m!w) k!w))))", ks, arr.S, alloc.S, arr.S, arr.S), Sort: "Bool"})
+}
+
 // wtRef assumes the well-typedness of a reference read from the heap: it is nil or an allocated object. This
 // holds in every Go execution (the allocation map only grows); instantiating it at the loads keeps the VCs ground.
 func (e *Engine) wtRef(s *State, r Term) Term {
-	if r.C != nil || strings.HasPrefix(r.S, "ref!") || s.quant > 0 {
+	if r.C != nil || strings.HasPrefix(r.S, "ref!") {
 		return r
+	}
+	if s.quant > 0 {
+		return r // under a binder: map-valued references are covered by the quantified axiom of their array
 	}
 	if s.wt == nil {
 		s.wt = map[string]bool{}
@@ -583,7 +614,8 @@ func (e *Engine) load(s *State, p PtrV, t types.Type) Val {
 	case "cell":
 		return getPath(s.cellv[p.Cell], p.Path, e, s)
 	case "elem":
-		return e.loadElem(s, p.Ref, p.Idx, p.Elem)
+		et, pre, rest := pathElem(p.Elem, elemPrefix(p.Elem), p.Path)
+		return getPath(e.loadElemT(s, p.Ref, p.Idx, et, pre), rest, e, s)
 	case "arr":
 		so := elemSort(p.Elem)
 		m := e.heapArr(s, "M_"+sortTag(so), refArrSort(arrSort(so)))
@@ -740,7 +772,11 @@ func (e *Engine) store(s *State, p PtrV, v Val) {
 	case "cell":
 		s.cellv[p.Cell] = setPath(s.cellv[p.Cell], p.Path, v, e, s)
 	case "elem":
-		e.storeElem(s, p.Ref, p.Idx, p.Elem, v.(Term))
+		et, pre, rest := pathElem(p.Elem, elemPrefix(p.Elem), p.Path)
+		if len(rest) > 0 {
+			v = setPath(e.loadElemT(s, p.Ref, p.Idx, et, pre), rest, v, e, s)
+		}
+		e.storeElemT(s, p.Ref, p.Idx, et, pre, v)
 	case "arr":
 		so := elemSort(p.Elem)
 		nm := "M_" + sortTag(so)
